@@ -383,7 +383,7 @@ func (h *storeRun) checkZip(r *zipReport) {
 			c.num("central.uncompressed_size", ce.Usize, int64(m.USize))
 			c.num("central.relative_offset_of_local_file_header", ce.Off, int64(m.LocalOff))
 			c.str("central.file_comment", ce.Comment, m.Comment)
-			c.num("central.flags.data_descriptor", ce.Dd, b2i(m.Descriptor))
+			c.num("central.flags.data_descriptor", ce.Dd, hstoreB2i(m.Descriptor))
 			c.num("central.fat_date", ce.Date, int64(zt.DosDates[i]))
 			c.num("central.fat_time", ce.Time, int64(zt.DosTimes[i]))
 			if m.Modified != 0 {
@@ -396,7 +396,7 @@ func (h *storeRun) checkZip(r *zipReport) {
 			c.num("local.start", lo.Start, int64(m.LocalOff))
 			c.str("local.file_name", lo.Name, m.Name)
 			c.num("local.compression_method", lo.Method, int64(m.Method))
-			c.num("local.flags.data_descriptor", lo.Dd, b2i(m.Descriptor))
+			c.num("local.flags.data_descriptor", lo.Dd, hstoreB2i(m.Descriptor))
 			c.num("local.fat_date", lo.Date, int64(zt.DosDates[i]))
 			c.num("local.fat_time", lo.Time, int64(zt.DosTimes[i]))
 			if m.Descriptor {
@@ -522,7 +522,7 @@ func (h *storeRun) checkZip(r *zipReport) {
 	}
 }
 
-func b2i(b bool) int64 {
+func hstoreB2i(b bool) int64 {
 	if b {
 		return 1
 	}
@@ -1071,7 +1071,7 @@ func (h *storeRun) checkGIF(r *gifReport) {
 			c.num("top", rb.Top, int64(fr.Top))
 			c.num("width", rb.Width, int64(fr.W))
 			c.num("height", rb.Height, int64(fr.H))
-			c.num("local_color_map_follows", rb.Lcm_follows, b2i(fr.Local != nil))
+			c.num("local_color_map_follows", rb.Lcm_follows, hstoreB2i(fr.Local != nil))
 			c.num("image_interlaced", rb.Interlaced, 0)
 			c.num("code_size", rb.Code_size, int64(fr.LitWidth))
 			if fr.Local != nil {
